@@ -14,7 +14,10 @@ for d in sorted(glob.glob('/verif/seeded/*/')):
     caught += ok
     missed += (not ok)
     why = m.get('missed_reason', '')
-    rows.append('| %s | %s | %s | %s |' % (os.path.basename(d.rstrip('/')), what, 'caught' if ok else 'missed',
+    status = 'caught' if ok else 'missed'
+    if ok and m.get('first_pass') == 'missed':
+        status = 'caught after strengthening (' + m.get('strengthened_with', '') + ')'
+    rows.append('| %s | %s | %s | %s |' % (os.path.basename(d.rstrip('/')), what, status,
                                          ', '.join(hs) or (why or '-')))
 out = ['%d seeded changes: %d reported by the quick check of their property (each with a natively replayed '
        'counterexample), %d missed.' % (caught + missed, caught, missed), '',
